@@ -2,7 +2,7 @@
 from harness.props import sysrun
 from harness.sched import monitors as M
 
-PROP_FILE = 'C18'
+PROP_FILE = ['C18', 'C18Frame']
 
 
 def mons():
